@@ -17,7 +17,10 @@ type ExploreConfig struct {
 	Bound         int // maximum number of deviations (preemptions + non-default environment answers)
 	MaxExecutions int // budget; hitting it makes the result non-exhaustive
 	Deadline      time.Time
-	Shard, Shards int // explore only first-level subtrees k with k % Shards == Shard (0/0 = everything)
+	// GuaranteedBound: bounds up to this one are explored to the end whatever Deadline and MaxExecutions say (they
+	// are cheap, and a loaded machine must not make a check skip the schedules with the fewest deviations).
+	GuaranteedBound int
+	Shard, Shards   int // explore only first-level subtrees k with k % Shards == Shard (0/0 = everything)
 	// DelayBounding: every non-default choice costs one deviation, also when the running thread is
 	// blocked (delay-bounded scheduling, Emmi/Qadeer/Rakamaric 2011). Default (false) is preemption
 	// bounding: switching away from a blocked or finished thread is free.
@@ -146,9 +149,13 @@ func Explore(cfg ExploreConfig, sc Scenario) *Stats {
 		}
 		return x
 	}
+	curBound := 0
 	over := func() bool {
 		if st.Diverged != "" {
 			return true
+		}
+		if curBound <= cfg.GuaranteedBound && cfg.GuaranteedBound > 0 {
+			return false
 		}
 		if cfg.MaxExecutions > 0 && st.Executions >= cfg.MaxExecutions {
 			st.Capped = fmt.Sprintf("execution budget %d reached", cfg.MaxExecutions)
@@ -203,6 +210,7 @@ func Explore(cfg ExploreConfig, sc Scenario) *Stats {
 	// Iterate the bound: the statistics reported are those of the last bound explored (lower bounds
 	// explore subsets of it); the first counterexample therefore has the fewest deviations.
 	for b := 0; b <= cfg.Bound; b++ {
+		curBound = b
 		st.Outcomes, st.FinalStates = map[string]int{}, map[string]int{}
 		st.Executions, st.Points, st.Pruned = 0, 0, 0
 		visited = map[string]int{}
